@@ -39,6 +39,7 @@ def image_of(fn, claims_fn=None, width_map=None):
     img["sacc"] = sacc or [""]
     img["claims"] = claims_fn(ex, fn) if claims_fn else []
     img["thr"] = 1
+    img["logsetup"] = 0
     return img
 
 
@@ -71,7 +72,7 @@ def default_argdom(fn, max_combos=400):
 
 
 def n_oracles(case):
-    p = len(case["opqdom"])
+    p = len(case["opqdom"]) * len(case.get("stdom", [[0]]))
     for d in case["argdom"]:
         p *= len(d)
     return p
@@ -80,10 +81,10 @@ def n_oracles(case):
 def oracle_at(case, oi):
     idx = oi - 1
     vals = []
-    for d in case["argdom"] + [case["opqdom"]]:
+    for d in case["argdom"] + [case["opqdom"], case.get("stdom", [[0]])]:
         vals.append(d[idx % len(d)])
         idx //= len(d)
-    return {"args": vals[:-1], "opq": vals[-1]}
+    return {"args": vals[:-2], "opq": vals[-2], "st": vals[-1]}
 
 
 def run_pair_batch(pid, contract, cases, tag="batch", workers=16, timeout=3000, coverage=False, extra_batch=None):
@@ -95,7 +96,7 @@ def run_pair_batch(pid, contract, cases, tag="batch", workers=16, timeout=3000, 
     for c in cases:
         keys, accs = regkeys_of([c["A"], c["B"]])
         bc = {"name": c["name"], "A": c["A"], "B": c["B"], "argdom": c["argdom"], "opqdom": c["opqdom"],
-              "regkeys": keys, "accs": accs}
+              "stdom": c.get("stdom", [[0]]), "regkeys": keys, "accs": accs}
         for k in c.get("extra", {}):
             bc[k] = c["extra"][k]
         batch_cases.append(bc)
@@ -126,7 +127,7 @@ def replay_trace(pid, contract, case, oi, workers=1):
     orc = oracle_at(case, oi)
     keys, accs = regkeys_of([case["A"], case["B"]])
     bc = {"name": case["name"], "A": case["A"], "B": case["B"], "argdom": [[v] for v in orc["args"]],
-          "opqdom": [orc["opq"]], "regkeys": keys, "accs": accs}
+          "opqdom": [orc["opq"]], "stdom": [orc["st"]], "regkeys": keys, "accs": accs}
     for k in case.get("extra", {}):
         bc[k] = case["extra"][k]
     with open(path, "w") as f:
